@@ -150,6 +150,9 @@ func decoders() []decoder {
 					if err != nil {
 						return "", err
 					}
+					if m == nil {
+						return c04Neither, nil
+					}
 					return univ.Project(m).Canon(), nil
 				}, nil})
 			}
@@ -208,6 +211,9 @@ type c04Case struct {
 }
 
 // tryDec runs decoder d on b in three capacity variants and compares the outcomes.
+// c04Neither: the decoder returned neither a value nor an error.
+const c04Neither = "NEITHER-VALUE-NOR-ERROR"
+
 func tryDec(c *engine.Ctx, d *decoder, b []byte, src string) {
 	c.Evals++
 	n := len(b)
@@ -240,6 +246,10 @@ func tryDec(c *engine.Ctx, d *decoder, b []byte, src string) {
 			return
 		}
 	}
+	if o[0].v == c04Neither {
+		c.Violate("neither-value-nor-error/"+d.name, fmt.Sprintf("%s on %d octets (%s) returns a nil message and a nil error", d.name, n, src), cs())
+		return
+	}
 	if o[0] != o[1] || o[0] != o[2] {
 		c.Violate("over-read/"+d.name, fmt.Sprintf("%s: outcome depends on memory behind the slice (%s): exact=(%v,%s) zeros=(%v,%s) ff=(%v,%s)", d.name, src,
 			o[0].err, trs(o[0].v), o[1].err, trs(o[1].v), o[2].err, trs(o[2].v)), cs())
@@ -268,7 +278,7 @@ func init() {
 	engine.Register(&engine.Check{
 		ID:    "C04",
 		Level: "exploration",
-		Rule: "every decoding entry point (message, header, payload chain with every first type, 16 payload bodies, EAP and 5 EAP method bodies, DecodeDecrypt with nil/3 key sets × header nil/parsed × both roles, AES-CBC Decrypt for 3 key sizes) is run on: U-small = all strings up to length n over a 7-symbol per-decoder alphabet; " +
+		Rule: "every decoding entry point (message, header, payload chain with every first type, 16 payload bodies, EAP and 5 EAP method bodies, DecodeDecrypt with nil/3 key sets × header nil/parsed × both roles, AES-CBC Decrypt for 3 key sizes) is run on: authentic-but-malformed protected datagrams (genuine checksum over malformed inner chains, impossible pad lengths, unaligned ciphertexts: 84 plaintexts × 6 endings × 3 suites × 2 directions) on which unprotection must still return a value or an error; U-small = all strings up to length n over a 7-symbol per-decoder alphabet; " +
 			"U-sweep = every value of every 8-bit size/count field × every remaining-buffer length 0..300 and the boundary set of every 16-bit length field × buffer lengths around it; U-mut = every single-octet replacement (7 values per position), every proper prefix and extensions of every encoding of the message universe and of protected messages; " +
 			"Decrypt on all lengths 0..96 with the recovered pad-length octet taking all 256 values. Each input is presented in three capacity variants (exact, zero tail, 0xFF tail); oracle: no panic, identical outcome across variants, CPU-time hang detector. distinct_nontrivial = distinct (decoder, decoded value) pairs among accepted inputs",
 		Assumptions: []string{"'work bounded by input length' is decided as termination of every enumerated call well inside a CPU-time budget, not as a complexity proof"},
@@ -517,6 +527,45 @@ func runC04(c *engine.Ctx) {
 				}
 			}
 			mutate(b, protDec, "U-mut-protected")
+		}
+	}
+	// authentic but malformed: the checksum is genuine (the peer holds the keys), what it covers is not a message —
+	// every malformed inner chain of U-chain, every pad-length octet that is impossible for the ciphertext, ciphertexts
+	// that are not block aligned. The unprotection still returns a value or an error.
+	if c.Mine() {
+		var plains [][]byte
+		for _, first := range []byte{0, 33, 40, 41, 48, 200} {
+			for _, chain := range [][]byte{{}, {0, 0}, {0, 0, 0}, {0, 0, 0, 3}, {0, 0, 0, 4}, {0, 0, 0, 5, 1}, {0, 0, 0xff, 0xf0, 1, 2, 3, 4}, {40, 0, 0, 8, 1, 2, 3, 4}, {40, 0, 0, 8, 1, 2, 3, 4, 0, 0, 0, 2},
+				{0, 0x80, 0, 8, 1, 2, 3, 4}, {200, 0x80, 0, 4, 0, 0, 0, 4}, {0, 0, 0, 4, 9, 9, 9}, {41, 0, 0, 12, 0, 0, 0, 1, 0, 0, 0, 0, 0, 0, 0, 8, 9}, {35, 0, 0, 5, 11}} {
+				plains = append(plains, append([]byte{first}, chain...))
+			}
+		}
+		for k, si := range []int{0, 4, 8} {
+			ks := univ.MakeKeySet(si, 2, 2)
+			for _, senderI := range []bool{true, false} {
+				ske, ska := ks.DirKeys(senderI)
+				for pi, pl := range plains {
+					first, chain := pl[0], pl[1:]
+					// pad to a whole number of blocks with a consistent pad-length octet, and with impossible ones
+					padded := append([]byte(nil), chain...)
+					for (len(padded)+1)%16 != 0 {
+						padded = append(padded, byte(pi))
+					}
+					good := append(append([]byte(nil), padded...), byte(len(padded)-len(chain)))
+					for _, last := range []int{int(good[len(good)-1]), len(good) - 1, len(good), 0xff, 0} {
+						pt := append([]byte(nil), good...)
+						pt[len(pt)-1] = byte(last)
+						b := ref.ProtectRaw(ks.Suite, ske, ska, univ.BaseHdr, first, pt, univ.Pat(16, 40+k), -1)
+						for _, d := range protDec {
+							run(d, b, "authentic-malformed")
+						}
+					}
+					b := ref.ProtectRaw(ks.Suite, ske, ska, univ.BaseHdr, first, good, univ.Pat(16, 44+k), len(good)-3)
+					for _, d := range protDec {
+						run(d, b, "authentic-not-block-aligned")
+					}
+				}
+			}
 		}
 	}
 	// SK body lengths 0..40 with each key set (shorter than / equal to / longer than the ICV)
